@@ -802,7 +802,7 @@ class Interp:
         if isinstance(v, Cmp):
             yield from v.split(self, env, st)
             return
-        if isinstance(v, IvCmp):
+        if isinstance(v, (IvCmp, BitLenCmp)):
             yield from v.split(self, env, st)
             return
         if isinstance(v, Either):
@@ -1224,7 +1224,7 @@ class Interp:
                     return
             yield ("objinit",), env, st
             return
-        if isinstance(o, (int, AInt)) and name == "bit_length":
+        if isinstance(o, (int, AInt, IvInt)) and name == "bit_length":
             yield ("bitlen", o), env, st
             return
         if isinstance(o, Obj):
@@ -1474,6 +1474,14 @@ class Interp:
         if isinstance(op, (ast.Lt, ast.Gt, ast.LtE, ast.GtE)):
             if isinstance(l, NonInt) or isinstance(r, NonInt):
                 raise Raise("TypeError: ordering a non-int")
+            if isinstance(l, BitLen) and isinstance(r, int):
+                return BitLenCmp(l.iv, {ast.Lt: "<", ast.Gt: ">",
+                                        ast.LtE: "<=", ast.GtE: ">="}[
+                                            type(op)], r)
+            if isinstance(r, BitLen) and isinstance(l, int):
+                return BitLenCmp(r.iv, {ast.Lt: ">", ast.Gt: "<",
+                                        ast.LtE: ">=", ast.GtE: "<="}[
+                                            type(op)], l)
             if isinstance(l, IvInt) or isinstance(r, IvInt):
                 if isinstance(l, IvInt) and isinstance(r, int):
                     return IvCmp(l, {ast.Lt: "<", ast.Gt: ">", ast.LtE: "<=",
@@ -1693,6 +1701,9 @@ class Interp:
             v = f[1]
             if isinstance(v, int):
                 yield v.bit_length(), env, st
+                return
+            if isinstance(v, IvInt):
+                yield BitLen(v), env, st
                 return
             raise Unsupported("bit_length of symbolic value")
         if isinstance(f, tuple) and f and f[0] == "strmeth":
@@ -2061,6 +2072,50 @@ class IvCmp:
             new = IvInt(iv.name, rng[0], rng[1])
             _replace(e2, s2, iv, new)
             yield val ^ self.neg, e2, s2
+
+
+class BitLen:
+    """x.bit_length() of an interval-valued parameter x"""
+
+    def __init__(self, iv):
+        self.iv = iv
+
+    def __repr__(self):
+        return "BitLen(%r)" % (self.iv,)
+
+
+class BitLenCmp:
+    """x.bit_length() OP n: bit_length() > n  <=>  x >= 2**n or x <= -2**n
+    (the magnitude, whatever the sign).  Splits the interval of x."""
+
+    def __init__(self, iv, op, n, neg=False):
+        self.iv, self.op, self.n, self.neg = iv, op, n, neg
+
+    def negate(self):
+        return BitLenCmp(self.iv, self.op, self.n, not self.neg)
+
+    def split(self, I, env, st):
+        # normalise to  bit_length() > m  (possibly negated)
+        op, n, neg = self.op, self.n, self.neg
+        if op == ">=":
+            op, n = ">", n - 1
+        elif op == "<":
+            op, n, neg = ">", n - 1, not neg
+        elif op == "<=":
+            op, neg = ">", not neg
+        if n < 0:
+            yield True ^ neg, env, st          # bit_length() >= 0 always
+            return
+        k = 1 << n
+        name = self.iv.name
+        for t1, e1, s1 in IvCmp(self.iv, ">=", k).split(I, env, st):
+            if t1:
+                yield True ^ neg, e1, s1
+                continue
+            cur = s1.ivref.get(name, self.iv) if getattr(
+                s1, "ivref", None) else self.iv
+            for t2, e2, s2 in IvCmp(cur, "<=", -k).split(I, e1, s1):
+                yield t2 ^ neg, e2, s2
 
 
 def _sync_iv(env, st):
